@@ -30,6 +30,10 @@ def cow_merge_fns(f):
         if not b.is_coroutine:
             continue
         fns = [t.get('fn') or '' for _bi, t in b.calls()]
+        ups = f.types[b.locals[1]].get('u') or []
+        has_caller_bytes = any(f.types[u]['k'] == 'ref' and f.types[f.types[u]['t']]['k'] == 'slice' for u in ups)
+        if not has_caller_bytes:
+            continue            # e.g. the header writer: bounce buffer, but nothing of the caller is merged
         if any(x.startswith('helpers::Qcow2IoBuf::<T>::new') for x in fns) and \
                 any(x.endswith('copy_from_slice') for x in fns) and any(x.endswith('::call_write') for x in fns):
             out.append(short(b.path))
